@@ -62,10 +62,20 @@ def gen_hooks(rng, p_any):
     return "|".join(parts) or "-"
 
 
-def gen_spec(rng, hooks_p):
+def gen_spec(rng, hooks_p, ctx=None):
     """[mode, swallow, end cb, cancel cb, bad call, is coroutine function, hooks]"""
+    hooks = gen_hooks(rng, hooks_p)
+    if ctx is not None and has_unlock(hooks):
+        if ctx.closing:
+            hooks = "-"
+        else:
+            ctx.unlock_hooks = True
     return [rng.choice("ggggrx"), rng.choice("0001"), rng.choice(CBS), rng.choice(CBS), rng.choice("00001"),
-            rng.choice("1111111110"), gen_hooks(rng, hooks_p)]
+            rng.choice("1111111110"), hooks]
+
+
+def has_unlock(hooks):
+    return any(op == "u" for part in hooks.split("|") if ":" in part for op in part.split(":")[1].split(";"))
 
 
 def pick(rng, weights):
@@ -95,6 +105,11 @@ class Run:
         self.extras.append(ex)
         return res
 
+    def mark(self, what):
+        self.lines.append("mark " + what)
+        self.obs.append("mark")
+        self.extras.append(None)
+
     def idle(self, cap=600):
         for _ in range(cap):
             if self.do(["run"]) == "noop":
@@ -109,7 +124,7 @@ class Run:
                     out.append((i, t))
         return out
 
-    def winddown(self, rounds=8):
+    def winddown(self, rounds=80):
         for _ in range(rounds):
             if not self.idle():
                 return False
@@ -118,7 +133,7 @@ class Run:
                 return True
             for i, t in pend:
                 self.do(["on", str(i), "gate", str(t), "ok"])
-        return self.idle()
+        return self.idle() and not self.pending()
 
     def close(self):
         self.W.close()
@@ -138,6 +153,8 @@ def gen_mkpool(rng, prof, R):
         if rng.random() > prof["badpool"]:
             sp[5] = "1"
         R.do(["mkpool", "simple", size, name] + sp)
+        if R.W.pools and has_unlock(sp[6]):
+            R.W.pools[-1].unlock_hooks = True
     else:
         R.do(["mkpool", "task", size, name])
 
@@ -158,7 +175,7 @@ def gen_op(rng, prof, R):
         if simple:
             R.do(on + ["start", str(rng.choice(nums))])
         else:
-            sp = gen_spec(rng, hp)
+            sp = gen_spec(rng, hp, ctx)
             R.do(on + ["apply", str(rng.choice(nums)), rng.choice(["-", "-", "-", "G", "H"])] + sp)
     elif k == "spawn2":
         if simple:
@@ -167,7 +184,7 @@ def gen_op(rng, prof, R):
             stars = rng.choice([0, 1, 2])
             n = rng.randint(0, prof.get("maxitems", 5))
             items = "".join(("1" if stars and rng.random() < 0.15 else "0") for _ in range(n)) or "-"
-            sp = gen_spec(rng, hp)
+            sp = gen_spec(rng, hp, ctx)
             R.do(on + ["map", str(stars), items, str(rng.choice(prof.get("ncs", [0, 1, 1, 2, 2, 3]))),
                        rng.choice(["-", "-", "-", "G", "H"]), sp[0], sp[1], sp[2], sp[3], sp[5], sp[6]])
     elif k == "cancel":
@@ -180,6 +197,8 @@ def gen_op(rng, prof, R):
     elif k == "lock":
         R.do(on + ["lock"])
     elif k == "unlock":
+        if ctx.closing and not prof.get("unlock_while_closing"):
+            return          # documented usage contract of gather_and_close (known finding R9 is replayed separately)
         R.do(on + ["unlock"])
     elif k == "set_size":
         R.do(on + ["set_size", str(rng.randint(-1, 4))])
@@ -189,6 +208,9 @@ def gen_op(rng, prof, R):
     elif k == "flush":
         R.do(on + ["flush", rng.choice("01")])
     elif k == "gac":
+        if ctx.unlock_hooks and not prof.get("unlock_while_closing"):
+            return
+        ctx.closing = True
         R.do(on + ["gac", rng.choice("01")])
     elif k == "until_closed":
         R.do(on + ["until_closed"])
@@ -210,6 +232,7 @@ def gen_op(rng, prof, R):
 
 def capacity_probe(R):
     """at quiescence an N-sized pool must again run N tasks at once (C02)"""
+    R.mark("probe")
     for i, ctx in enumerate(R.W.pools):
         if ctx.size in ("inf", "0"):
             continue
@@ -225,6 +248,16 @@ def capacity_probe(R):
     R.winddown()
 
 
+def finish(R, winddown=True, probe=True):
+    """release everything, reach quiescence, then the capacity probe"""
+    if winddown:
+        R.mark("winddown")
+        quiet = R.winddown()
+        R.mark("quiet" if quiet else "busy")
+        if probe and quiet:
+            capacity_probe(R)
+
+
 def generate(rng, prof):
     R = Run()
     try:
@@ -235,26 +268,40 @@ def generate(rng, prof):
         n = rng.randint(3, prof["maxlen"])
         for _ in range(n):
             gen_op(rng, prof, R)
-        if prof["winddown"]:
-            R.winddown()
-            if prof["probe"]:
-                capacity_probe(R)
+        finish(R, prof["winddown"], prof["probe"])
     finally:
         R.close()
     return R.result()
 
 
-def replay(lines):
-    """re-executes resolved op lines (cancel orders are re-observed)"""
+def body_of(lines):
+    """the op lines of a history without the reset line and without the regenerated tail"""
+    out = []
+    for ln in lines:
+        toks = ln.split()
+        if not toks or toks[0] == "reset":
+            continue
+        if toks[0] == "mark" and toks[1] == "winddown":
+            break
+        if toks[-1].startswith("@"):
+            toks = toks[:-1]
+        out.append(" ".join(toks))
+    return out
+
+
+def replay(lines, winddown=True, probe=True):
+    """re-executes the body of a history (cancel orders are re-observed), then regenerates the wind-down tail"""
+    had_tail = any(ln.startswith("mark winddown") for ln in lines)
     R = Run()
     try:
-        for ln in lines:
+        for ln in body_of(lines):
             toks = ln.split()
-            if not toks or toks[0] == "reset":
+            if toks[0] == "mark":
+                R.mark(" ".join(toks[1:]))
                 continue
-            if toks[-1].startswith("@"):
-                toks = toks[:-1]
             R.do(toks)
+        if had_tail:
+            finish(R, winddown, probe)
     finally:
         R.close()
     return R.result()
